@@ -225,6 +225,15 @@ class QGen:
             cut = self.r.choice(["0.4", "1.0", "3.0"])
             return (f"{src}.Where(lambda {v}: {src2}.Where(lambda {t}: DeltaR({v}.eta(), {v}.phi(), {t}.eta(), {t}.phi()) < {cut})"
                     f".Count() {self.r.choice(['> 0', '== 0'])})"), etype
+        if allow_where and self.b == "atlas" and self.r.random() < 0.12:
+            # the objects are filtered against a value of a singleton container fetched inside the predicate
+            v = self.var("w")
+            was = self.uncond
+            self.uncond = False
+            self.occ.append({"coll": "EventInfo", "bank": "EventInfo", "type": "xAOD::EventInfo", "uncond": False})
+            self.uncond = was
+            self.shape.append("where_singleton")
+            return f'{src}.Where(lambda {v}: {v}.pt() > {evar}.EventInfo("EventInfo").runNumber() - 300002)', etype
         if allow_where and self.r.random() < 0.4:
             v = self.var("w")
             src = f"{src}.Where(lambda {v}: {self.obj_bool(v, etype, depth - 1)})"
